@@ -98,6 +98,44 @@ func TestConcurrentVerification(t *testing.T) {
 		if failure != "" {
 			t.Fatalf("C07 violated: %s", failure)
 		}
+		// the digest alone, at a much higher rate and with more goroutines than cores (so that goroutines are
+		// preempted in the middle of a digest): the digest of a transaction is a function of its own content
+		storm := rapid.SampledFrom([]int{2000, 20000}).Draw(t, "digestRounds")
+		nG := rapid.SampledFrom([]int{8, 48}).Draw(t, "digestGoroutines")
+		padTo := rapid.SampledFrom([]int{0, 3000, 60000}).Draw(t, "digestPayloadBytes")
+		var natives []*types.Transaction
+		for _, k := range tasks {
+			if k.honest && k.tx.Type != types.TransactionTypeETHTX {
+				tx := clone(k.tx)
+				for len(tx.ExtraData) < padTo {
+					tx.ExtraData += "0123456789abcdef0123456789abcdef0123456789abcdef0123456789abcdef"
+				}
+				tx.Hash = refNativeHash(tx)
+				natives = append(natives, tx)
+			}
+		}
+		if len(natives) > 0 {
+			var wg2 sync.WaitGroup
+			for g := 0; g < nG; g++ {
+				wg2.Add(1)
+				go func(tx *types.Transaction) {
+					defer wg2.Done()
+					for r := 0; r < storm; r++ {
+						if h := tx.GenHash(); h != tx.Hash {
+							mu.Lock()
+							failure = fmt.Sprintf("GenHash of an unchanged transaction gave %x while %d other goroutines were hashing their own transactions (round %d); SHA-256 of its content, and GenHash alone: %x\ntx=%s", h[:], nG-1, r, tx.Hash[:], render(tx))
+							mu.Unlock()
+							return
+						}
+					}
+				}(clone(natives[g%len(natives)]))
+			}
+			wg2.Wait()
+			if failure != "" {
+				t.Fatalf("C07 violated: %s", failure)
+			}
+			stats.Count("concurrent_digests", int64(nG*storm))
+		}
 		stats.Case(fmt.Sprintf("conc|%d|%x", len(tasks), tasks[0].tx.Hash[:8]), "concurrent_verification", c.class(), fmt.Sprintf("concurrent_goroutines:%d", len(tasks)), fmt.Sprintf("concurrent_repetitions:%d", reps))
 		stats.Count("concurrent_verifications", int64(len(tasks)*reps))
 	})
